@@ -7,7 +7,8 @@ of /repo's HEAD), own target directories — so it can run in the background wit
 /repo, /verif/evidence or /verif/target. For every seeded/<name>/patch.diff: apply to the
 scratch repo, run the quick checks of the seed's family (or all with --all), record exit code
 and violated keys, revert. Result: /verif/seeded/MATRIX.json (+ MATRIX.md).
-usage: seed_matrix.py [--benign] [--all] [--checks=C01,C02] [--force] [names...]
+usage: seed_matrix.py [--benign] [--all] [--own] [--checks=C01,C02] [--force] [names...]
+--own runs only the change's own check (quick way to extend the matrix).
 --checks restricts the run to these checks (intersected with the family); --force re-runs
 names already in the matrix (their other columns are kept)."""
 import json, os, subprocess, sys, glob, shutil
@@ -72,6 +73,9 @@ def main():
         checks=[f'C{i:02d}' for i in range(1,21)] if allchecks else family(pd)
         own=name.split('-')[0]
         if own not in checks: checks.append(own)
+        if '--own' in args:
+            # the change's own check, plus the checks named as detecting it in a cross note
+            checks=[own]+{'C01-g':['C13'],'C18-g':['C09'],'C04-g':['C09']}.get(name,[])
         if restrict is not None: checks=[c for c in checks if c in restrict]
         if not checks:
             sh(f'git -C {MX}/repo checkout -- .')
